@@ -107,3 +107,15 @@ Theorem C05_source_VerifyAssertionConditions_is_the_model : forall cfg now a,
   G_VerifyAssertionConditions cfg now a = PVal (res_some (verify_conditions cfg now a)).
 Proof. exact G_VerifyAssertionConditions_eq. Qed.
 Print Assumptions C05_source_VerifyAssertionConditions_is_the_model.
+
+(* the clock theorems on the translated source function itself *)
+From V Require Import P_C05Source.
+Theorem C05_source_accepted_at_every_earlier_instant : forall cfg now now' r,
+  ile now now' -> G_Validate cfg now' r = PVal (Ok tt) -> G_Validate cfg now r = PVal (Ok tt).
+Proof. exact source_accepted_at_every_earlier_instant. Qed.
+Print Assumptions C05_source_accepted_at_every_earlier_instant.
+
+Theorem C05_source_rejection_is_permanent : forall cfg now now' r e,
+  ile now now' -> G_Validate cfg now r = PVal (Err e) -> exists e', G_Validate cfg now' r = PVal (Err e').
+Proof. exact source_Validate_never_panics_and_rejection_is_permanent. Qed.
+Print Assumptions C05_source_rejection_is_permanent.
